@@ -89,6 +89,13 @@ def probes():
             {'fn': 'subc', 'n': 2, 'm': 1, 'big': True, 'host': None, 'probe': 'subtract-with-compare-big-endian-padding'}]
 
 
+def _ao(src):
+    """add_outputs keyword; when it is False every other call leaves it out (the documented default is False)"""
+    if not src['add_outputs'] and src.get('host') is None:
+        return {}
+    return {'add_outputs': src['add_outputs']}
+
+
 def _fresh_pre(c):
     return {'g': {l: {'t': 'INPUT', 'o': []} for l in c.inputs}, 'ord': list(c.inputs), 'i': list(c.inputs), 'o': [], 'u': {}, 'b': {}}
 
@@ -207,7 +214,7 @@ def record(src):
                 if src.get('given_labels'):
                     given = [f'res_{j}' for j in range(ol)]
                     kw['result_labels'] = list(given)
-                res = gg.add_plus_one(c, list(a), add_outputs=src['add_outputs'], **A.bkw(big), **kw)
+                res = gg.add_plus_one(c, list(a), **_ao(src), **A.bkw(big), **kw)
                 if given is None:
                     ol = len(res)
                 om = 'appendset' if src['add_outputs'] else 'same'
@@ -225,7 +232,7 @@ def record(src):
                 c, ops = A.make_host(src, 3)
                 pre = project(c)
                 i, t, e = ops
-                out = gg.add_if_then_else(c, i, t, e, add_outputs=src['add_outputs'])
+                out = gg.add_if_then_else(c, i, t, e, **_ao(src))
                 om, outl = ('append' if src['add_outputs'] else 'same'), [out]
             checks = [{'op': 'ite', 'i': i, 't': t, 'e': e, 'out': out}]
             return A.finish(case, c, pre, rng, [out], checks, om, outl if om != 'same' else [])
@@ -241,9 +248,9 @@ def record(src):
                 c, ops = A.make_host(src, k * n)
                 pre = project(c)
                 if fn == 'pxor':
-                    res = gg.add_pairwise_xor(c, ops[:n], ops[n:], add_outputs=src['add_outputs'])
+                    res = gg.add_pairwise_xor(c, ops[:n], ops[n:], **_ao(src))
                 else:
-                    res = gg.add_pairwise_if_then_else(c, ops[:n], ops[n:2 * n], ops[2 * n:], add_outputs=src['add_outputs'])
+                    res = gg.add_pairwise_if_then_else(c, ops[:n], ops[n:2 * n], ops[2 * n:], **_ao(src))
                 om = 'append' if src['add_outputs'] else 'same'
             if fn == 'pxor':
                 checks = [{'op': 'pxor', 'x': ops[:n], 'y': ops[n:2 * n], 'out': list(res)}]
